@@ -103,6 +103,31 @@ def run(ctx):
     ob('R15.2').run(f, 'Quadratic/Cubic.unit_tangent delegate to bezier_unit_tangent(self, t)', th_del,
                     lambda v: (v[0] == 'UT' and v[1][0] is v[2] and to_rat(v[1][1]).equals(TT) and v[3] == 'UT' and v[4][0] is v[5], 'delegation broken'))
 
+    # real segments with symbolic control points, at the end points and at a general parameter: wherever the first derivative
+    # is not known to vanish the answer is its direction (an end point whose control point is merely NEAR it still has that
+    # control point's direction)
+    from fractions import Fraction as Fr
+    for cname, n in (('QuadraticBezier', 3), ('CubicBezier', 4)):
+        fu = mdl.func('path.%s.unit_tangent' % cname)
+        for tv, tl in ((Rat.const(0), '0'), (Rat.const(1), '1'), (TT, 't'), (Rat.const(Fr(1, 2)), '1/2')):
+            Pn = cpoints(n)
+
+            def th_real(it, cname=cname, Pn=Pn, tv=tv):
+                seg = it.construct('path.' + cname, *Pn)
+                r = it.call_method(seg, 'unit_tangent', tv)
+                d = it.call_method(seg, 'derivative', tv)
+                return r, d, path_sign(it, apply_fn('abs', to_rat(d))), it
+
+            def judge_real(v):
+                r, d, sg, it = v
+                d = to_rat(d)
+                if d.is_zero() or sg == frozenset('0') or it.trace.reduce(d).is_zero():
+                    return True, ''            # singular point: the fallback rule R15.3 applies
+                d = it.trace.reduce(d)
+                return decide_equal(it.trace.reduce(to_rat(r)), d / apply_fn('abs', d))
+            ob('R15.2').run(fu, '%s.unit_tangent(%s) on symbolic control points == derivative/|derivative|' % (cname, tl), th_real, judge_real,
+                            allowed_raises=('AssertionError', 'ValueError', 'ZeroDivisionError', 'FloatingPointError'))
+
     # ---------------------------------------------------------------- R15.3 fallback
     coeffs = [Rat.csym('k%d' % i) for i in range(3)]
 
